@@ -58,6 +58,17 @@ CLAIMED = {
        "generated pairs (diff entries and command paths must be equal).",
   note=COMMON_NOTE + "vendor %logic functions are parameters (quantified over); no ACL, implicit defaults off.",
   design="§5 C16", technique="Lean 4 proof (definitional equality of the two compositions for all logic tables) + differential correspondence + impl-vs-impl oracle on shipped corpus"),
+ "C03": dict(
+  text="Lean theorems over the model of make_diff (apply_diff_rb, call_diff_logic, base_diff with default/ordered/rewrite logics, "
+       "mark/strip_unchanged), any rulebook/trees: per diff-logic group, dropping removed lines yields new in new's order, dropping "
+       "added lines yields old as a multiset; ops are exact; self-diff is empty at every depth; MOVED is characterised exactly "
+       "(block_in_disorder closed form); strip idempotent. The stronger readings (MOVED iff relative order changed; old order "
+       "recoverable) are FALSE of the code: kernel-checked witnesses, recorded as findings F03a/F03b. Tie: make_diff/"
+       "strip_unchanged vs the model on 4k (quick) generated rulebook/config cases; oracle: projections, exact ops, self-diff, "
+       "MOVED, and formatter.diff text read back, on the real outputs.",
+  note=COMMON_NOTE + "standard diff logics only (vendor %diff_logic and %multiline out of scope by the property text); text "
+       "round trip is oracle-only (formatter not yet in the Lean model).",
+  design="§5 C03", technique="Lean 4 proof (sorting/index invariants, mutual induction) + differential correspondence"),
 }
 REASONS = {}
 def main():
